@@ -23,7 +23,7 @@ ASSUMPTIONS = [
     'three-valued: an unset option without a listed default may read as the DEFAULT sentinel, as "" or as an empty list',
 ]
 BOUNDS = {'quick': {'options': 'one of each declared type + SocksPort port list', 'values': 'ints -5..70000 rendered as text, strings of <=2 symbolic printable chars',
-                    'change_events': '<=2 steps'},
+                    'change_events': '<=3 steps, single-option and two-option events; one event at any point during bootstrap'},
           'thorough': {'change_events': '<=3 steps'}}
 OUTSIDE = ['hidden-service options', 'more than two values per option', 'values containing spaces or line breaks in CONF_CHANGED']
 
@@ -179,7 +179,7 @@ def c11_bootstrap(ki: int, state: int, i: int, s: str, variant: bool, defsup: bo
     return ''
 
 
-def _changed(kind, steps, svals):
+def _changed(kind, steps, svals, multi=False):
     """steps: list of op codes: 0 CONF_CHANGED unset, 1 CONF_CHANGED one value, 2 CONF_CHANGED two values,
     3 local in-place edit (append) / scalar assignment, 4 save()"""
     name = _NAME[kind]
@@ -201,11 +201,21 @@ def _changed(kind, steps, svals):
                     assume(False)
                 vals = [None, [_val(kind, 7 + n, svals[n], False)], [_val(kind, 7 + n, svals[n], False), _val(kind, 8 + n, svals[n] + 'y', True)]][op]
                 tor.options[name]['values'] = vals
-                tor.say(*tor.conf_changed_lines([(name, vals)]))
+                changes = [(name, vals)]
+                if multi:
+                    # one event announcing several options; the option under test is not the last one named
+                    xname, xkind, xvals = ('NumCPUs', 'int', [str(8 + n)]) if kind == 'str' else ('Nickname', 'str', ['nick%d' % n])
+                    tor.options[xname]['values'] = xvals
+                    changes.append((xname, xvals))
+                tor.say(*tor.conf_changed_lines(changes))
                 pending_local = None
                 r = check_option(cfg, name, kind, vals, ['Unnamed'] if kind == 'str' else None)
                 if r:
                     return r
+                if multi:
+                    r = check_option(cfg, xname, xkind, xvals, None)
+                    if r:
+                        return R('second-option-of-the-event', '%s', r)
                 for spelling in (name.lower(), name.upper()):
                     r = check_option(cfg, name, kind, vals, ['Unnamed'] if kind == 'str' else None, spelling)
                     if r:
@@ -236,6 +246,8 @@ def _changed(kind, steps, svals):
                     if listy:
                         if got != pending_local:
                             return R('saved-list-differs-from-edited-view', '%s: tor has %r, view was %r', name, got, pending_local)
+                    if [k for k, _v in (tor.setconfs[-1] or []) if k != name]:
+                        return R('save-sent-an-option-that-was-not-edited', '%r', tor.setconfs[-1])
                     pending_local = None
         if kind == 'ports' and len(cfg.__getattr__(name)):
             ep = cfg.socks_endpoint(MemoryReactorClock())
@@ -248,9 +260,72 @@ def _changed(kind, steps, svals):
 
 
 @cond(quick=dict(parts=[{'ki': i, 'o1': a} for i in range(8) for a in range(5)], budget=100))
-def c11_changed(ki: int, o1: int, o2: int, o3: int) -> str:
-    """after bootstrap: 3 steps of CONF_CHANGED (0/1/2 values) / local edit / save on the option of kind ki"""
+def c11_changed(ki: int, o1: int, o2: int, o3: int, multi: bool) -> str:
+    """after bootstrap: 3 steps of CONF_CHANGED (0/1/2 values; alone or in an event that names a second option) / local edit / save on the option of kind ki"""
     o2 = api.pick(o2, 0, 4)
     o3 = api.pick(o3, 0, 4)
+    multi = True if multi else False
     with api.no_tracing():      # every choice is concrete by now
-        return _changed(_KINDS[ki], [o1, o2, o3], ['u', 'v', 'k'])
+        return _changed(_KINDS[ki], [o1, o2, o3], ['u', 'v', 'k'], multi)
+
+
+def _step(tor):
+    rest = tor.pending()
+    if not rest or tor.dead:
+        return False
+    ln = rest[0].decode('ascii')
+    tor.answered += 1
+    tor.lines.append(ln)
+    tor.answer(ln)
+    return True
+
+
+def _during_bootstrap(kind, k, op):
+    """Tor answers k of the bootstrap's commands, then another controller changes the option (CONF_CHANGED, if TorConfig has
+    subscribed by then), then Tor answers the rest: the finished view must show Tor's current value"""
+    name = _NAME[kind]
+    values = {'AvoidDiskWrites': ['0'], 'AssumeReachable': ['auto'], 'NumCPUs': ['4'], 'CircuitPriorityHalflife': ['30.0'],
+              'Nickname': ['fixed'], 'ExitNodes': ['x1'], 'ExcludeNodes': ['{aa},{bb}'], 'Log': ['notice stdout'], 'SocksPort': ['9050'], '__SocksPort': None, 'SocksPortLines': None}
+    p, t, tor = make_world(values, True, {'Nickname': ['Unnamed']})
+    listy = kind in ('comma', 'lines', 'ports')
+    if not listy and op != 1 and not (kind == 'str' and op == 0):
+        assume(False)
+    if kind == 'comma' and op == 2:
+        assume(False)
+    try:
+        cfg = TorConfig(p)
+        out = fakes.Outcome(cfg.post_bootstrap)
+        for _ in range(k):
+            if not _step(tor):
+                assume(False)        # bootstrap needs fewer than k commands
+        if out.fired:
+            assume(False)            # (events after bootstrap are c11_changed's subject)
+        subscribed = bool(tor.setevents) and 'CONF_CHANGED' in tor.setevents[-1]
+        vals = [None, [_val(kind, 7, 'u', False)], [_val(kind, 7, 'u', False), _val(kind, 8, 'uy', True)]][op]
+        tor.options[name]['values'] = vals
+        if subscribed:
+            tor.say(*tor.conf_changed_lines([(name, vals)]))
+        asked_before = any(ln.upper().startswith('GETCONF ' + name.upper()) for ln in tor.lines)
+        for _ in range(200):
+            if not _step(tor):
+                break
+        if out.ok != 1:
+            return R('bootstrap-failed', '%r', out.exc())
+        if asked_before and not subscribed:
+            assume(False)            # changed behind TorConfig's back before it could hear about it: outside the statement
+        r = check_option(cfg, name, kind, vals, ['Unnamed'] if kind == 'str' else None)
+        if r:
+            return R('change-announced-during-bootstrap-lost', 'after %d answers: %s', k, r)
+    except Exception as e:
+        return R('exception', '%s: %s', type(e).__name__, e)
+    reached()
+    return ''
+
+
+@cond(quick=dict(parts=[{'ki': i} for i in range(8)], budget=100))
+def c11_during_bootstrap(ki: int, k: int, op: int) -> str:
+    """a CONF_CHANGED event that arrives while bootstrap is still fetching options (after k answers)"""
+    k = api.pick(k, 0, 24)
+    op = api.pick(op, 0, 2)
+    with api.no_tracing():
+        return _during_bootstrap(_KINDS[ki], k, op)
